@@ -215,8 +215,25 @@ func c06Run(r *Run) {
 								}
 							}
 						}
-					case og == oFresh || og == oSlot:
-						r.ok(key, as.Pos(), "the cell is a variable slot or was allocated in this function")
+					case og == oSlot:
+						// a store into a variable slot is a sink: the stored value must be fresh, a copy, or scalar
+						rhs := as.Rhs[0]
+						if len(as.Rhs) == len(as.Lhs) {
+							for i := range as.Lhs {
+								if as.Lhs[i] == l {
+									rhs = as.Rhs[i]
+								}
+							}
+						}
+						if freshValue(info, fd, rhs, exprStr(se.X), 0) {
+							r.ok(key, as.Pos(), "the value stored into the variable slot is built or copied in this function, or is a scalar")
+						} else {
+							r.curRule = "C06-SINK"
+							r.bad(fk+"#slot-store:"+cell, as.Pos(), "stores "+exprStr(rhs)+" into a variable slot directly: a caller's array placed there is not copied (Context.SetVariableValue, which copies, is bypassed), so the callee's writes show through the caller's variable")
+							r.curRule = "C06-CELL"
+						}
+					case og == oFresh:
+						r.ok(key, as.Pos(), "the cell was allocated in this function")
 					}
 				}
 				return true
@@ -488,4 +505,86 @@ func c06Run(r *Run) {
 			}
 		}
 	}
+}
+
+// freshValue: e is a value that cannot be an array shared with another holder: built here
+// (constructor New*/Clone*/make, &T{…}), a scalar by static type, or a local every assignment of
+// which is such an expression.
+func freshValue(info *types.Info, fd *ast.FuncDecl, e ast.Expr, cell string, depth int) bool {
+	if depth > 4 {
+		return false
+	}
+	e = ast.Unparen(e)
+	if ta, ok := e.(*ast.TypeAssertExpr); ok {
+		return freshValue(info, fd, ta.X, cell, depth+1)
+	}
+	// the value already held by this very slot
+	if se, ok := e.(*ast.SelectorExpr); ok && se.Sel.Name == "Value" && exprStr(se.X) == cell {
+		return true
+	}
+	if t := info.TypeOf(e); t != nil {
+		if p, ok := t.(*types.Pointer); ok {
+			if n := namedOf(p.Elem()); n != nil {
+				switch n.Obj().Name() {
+				case "IntValue", "FloatValue", "BoolValue", "NullValue", "StringValue":
+					return true
+				}
+			}
+		}
+	}
+	switch x := e.(type) {
+	case *ast.UnaryExpr:
+		if _, ok := x.X.(*ast.CompositeLit); ok && x.Op == token.AND {
+			return true
+		}
+	case *ast.CallExpr:
+		name := ""
+		switch f := ast.Unparen(x.Fun).(type) {
+		case *ast.Ident:
+			name = f.Name
+		case *ast.SelectorExpr:
+			name = f.Sel.Name
+		}
+		if strings.HasPrefix(name, "New") || strings.HasPrefix(name, "Clone") || strings.HasPrefix(name, "new") || strings.HasPrefix(name, "build") || strings.HasPrefix(name, "make") {
+			return true
+		}
+	case *ast.Ident:
+		o := info.Uses[x]
+		if o == nil {
+			return false
+		}
+		n, all := 0, true
+		ast.Inspect(fd.Body, func(m ast.Node) bool {
+			as, ok := m.(*ast.AssignStmt)
+			if !ok {
+				return true
+			}
+			for i, l := range as.Lhs {
+				id, ok := l.(*ast.Ident)
+				if !ok {
+					continue
+				}
+				if info.Defs[id] != o && info.Uses[id] != o {
+					continue
+				}
+				n++
+				switch {
+				case len(as.Rhs) == len(as.Lhs):
+					if !freshValue(info, fd, as.Rhs[i], cell, depth+1) {
+						all = false
+					}
+				case len(as.Rhs) == 1 && i == 0:
+					// v, ok := x.(T)
+					if !freshValue(info, fd, as.Rhs[0], cell, depth+1) {
+						all = false
+					}
+				default:
+					all = false
+				}
+			}
+			return true
+		})
+		return n > 0 && all
+	}
+	return false
 }
